@@ -40,7 +40,6 @@ fn add_types_recursive(
     let ghost v0 = types@;»
     // Types can be shared, so only visit each type once.
     if !types.insert(ty) {
-        «proof { assert(types@ == v0); lemma_seen_already(module, v0, t); }»
         return;
     }
     «let ghost v1 = types@;
